@@ -210,9 +210,9 @@ UNIT = dict(
     dict(id='he_dtor', entry='h_dtor', defs=dict(XV_HE=1, XV_ABS_VEC=1, XV_E=3, XV_K=3, XV_L=3, XV_LA=2), unwindset=unw(3, 3, 3, 2, 'he'), cls='shape-complete', timeout=900),
     dict(id='he_trigger', entry='h_trigger', defs=dict(XV_HE=1), cls='unbounded'),
     # everything real in one piece (no stub for reclaim_nodes): cross-check of the composition, small shape
-    dict(id='hp_scan_whole', entry='h_scan', tiers=['thorough'], defs=dict(XV_E=2, XV_K=2, XV_L=2, XV_LA=1), unwindset=unw(2, 2, 2, 1, 'hp'), cls='shape-complete', timeout=3000),
-    dict(id='hp_dtor_whole', entry='h_dtor', tiers=['thorough'], defs=dict(XV_E=2, XV_K=2, XV_L=2, XV_LA=1), unwindset=unw(2, 2, 2, 1, 'hp'), cls='shape-complete', timeout=3000),
-    dict(id='he_scan_whole', entry='h_scan', tiers=['thorough'], defs=dict(XV_HE=1, XV_E=2, XV_K=2, XV_L=2, XV_LA=1), unwindset=unw(2, 2, 2, 1, 'he'), cls='shape-complete', timeout=3000),
+    dict(id='hp_scan_whole', entry='h_scan', defs=dict(XV_E=2, XV_K=2, XV_L=2, XV_LA=1), unwindset=unw(2, 2, 2, 1, 'hp'), cls='shape-complete', timeout=3000),
+    dict(id='hp_dtor_whole', entry='h_dtor', defs=dict(XV_E=2, XV_K=2, XV_L=2, XV_LA=1), unwindset=unw(2, 2, 2, 1, 'hp'), cls='shape-complete', timeout=3000),
+    dict(id='he_scan_whole', entry='h_scan', defs=dict(XV_HE=1, XV_E=2, XV_K=2, XV_L=2, XV_LA=1), unwindset=unw(2, 2, 2, 1, 'he'), cls='shape-complete', timeout=3000),
   ],
   obligations={},
   canaries=[],
